@@ -148,6 +148,25 @@ class Placement(Relation):
         ctx.check((sl[0] is None) == (not common)
                   and (sl[1] is None) == (not common),
                   'slices | None iff no common pixel', f'{sl}')
+        # ---- arguments that are not a 2-D image / its shape are refused
+        # (never broadcast, truncated or wrapped), and the mask is an array
+        for nm, f in (('to_image', lambda: mask.to_image((ny,))),
+                      ('to_image', lambda: mask.to_image((ny, nx, 2))),
+                      ('cutout', lambda: mask.cutout(np.zeros(max(nx, 1)))),
+                      ('multiply', lambda: mask.multiply(
+                          np.zeros((2, max(ny, 1), max(nx, 1))))),
+                      ('get_values', lambda: mask.get_values(
+                          raw, mask=np.zeros((ny + 1, nx), bool)))):
+            try:
+                got = f()
+            except ValueError:
+                pass
+            else:
+                ctx.fail(f'{nm} | an argument of the wrong dimensionality / '
+                         'shape is accepted', repr(got)[:200])
+        ctx.check(np.array_equal(np.asarray(mask), weights)
+                  and np.asarray(mask).shape == (h, w),
+                  'array | np.asarray(mask) is not the weight array')
         # ---- to_image
         img = mask.to_image((ny, nx))
         if not common:
